@@ -141,4 +141,11 @@ class HyperCubeExperimenter(experimenter.Experimenter):
     self._exptr.evaluate(orig_suggestions)
 
     for suggestion, orig_suggestion in zip(suggestions, orig_suggestions):
-      suggestion.final_measurement = orig_suggestion.final_measurement
+      if orig_suggestion.infeasible:
+        # An infeasible evaluation stays infeasible in cube coordinates.
+        suggestion.complete(
+            orig_suggestion.final_measurement or vz.Measurement(),
+            infeasibility_reason=orig_suggestion.infeasibility_reason,
+        )
+      else:
+        suggestion.final_measurement = orig_suggestion.final_measurement
